@@ -146,6 +146,43 @@ PROPS = {
         "stubs": KANI_STUBS,
         "assumptions": TRUST,
     },
+    "C06": {
+        "engines": ["E2 mirsym+z3/cvc5"],
+        "e2": True,
+        "functions": [
+            ("sass::functions::string unique_id closure", "sass/functions/string.rs", r"def!\(f, unique_id\(\)"),
+            ("sass::functions::math random closure", "sass/functions/math.rs", r"def!\(f, random\("),
+            ("sass::functions::check::positive_int", "sass/functions/mod.rs", r"fn positive_int"),
+        ],
+        "bounds": {"quick": "unique-id(): one call from an ARBITRARY counter state c < u64::MAX; random($limit): every limit in 1..=i64::MAX, fastrand under its documented contract"},
+        "outside": "uniqueness under concurrent calls and the LazyLock initialisation race (sequential engine; mutual exclusion is std::sync::Mutex's contract); the float->int step of $limit (Number::into_integer, covered by C01 E1)",
+        "stubs": ["fastrand::i64(lo..hi) returns r with lo <= r < hi; fastrand::f64() returns r in [0,1)", "Mutex::lock/guard deref = one abstract cell", "format!/Arguments are opaque events (template constant compared)"],
+        "assumptions": ["rustc nightly MIR text = the code that is compiled", "mirsym's MIR subset semantics (/verif/mirsym/sym.py)", "z3 5.1 and cvc5 1.0.3 (every query on both; disagreement = inconclusive)"],
+    },
+    "C26": {
+        "engines": ["E2 mirsym+z3/cvc5"],
+        "e2": True,
+        "functions": [
+            ("sass::functions::string slice closure", "sass/functions/string.rs", r"def!\(f, slice\("),
+            ("sass::functions::string insert closure", "sass/functions/string.rs", r"def!\(f, insert\("),
+        ],
+        "bounds": {"quick": "ALL i64 index arguments, every string length <= 2^32 code points (len symbolic)"},
+        "outside": "str-index (find), to-upper/lower-case (std), string.split, the content of the strings, unquote/quote",
+        "stubs": ["ResolvedArgs::get/get_map return Ok(arbitrary value of the type) or Err", "chars().count() = arbitrary len <= 2^32", "skip/take/collect/CssString::new are opaque events"],
+        "assumptions": ["rustc nightly MIR text = the code that is compiled", "mirsym's MIR subset semantics (/verif/mirsym/sym.py)", "reference window model in kernels.py, cross-checked per run against the real build on concrete inputs", "z3 5.1 and cvc5 1.0.3 (every query on both)"],
+    },
+    "C28": {
+        "engines": ["E2 mirsym+z3/cvc5"],
+        "e2": True,
+        "functions": [
+            ("sass::functions::list::index_of", "sass/functions/list.rs", r"^fn index_of"),
+            ("sass::functions::list set_nth closure", "sass/functions/list.rs", r"def!\(f, set_nth\("),
+        ],
+        "bounds": {"quick": "ALL i64 n, every list length <= 2^32 (len symbolic)"},
+        "outside": "append/join/zip/index/separator (operate on Vec<css::Value>), maps and arglists as lists, the nth closure's dispatch on list/map/scalar",
+        "stubs": ["check::unitless_int returns Ok(arbitrary i64) or Err", "get_list / ResolvedArgs::get* are opaque events", "Vec::index_mut is an event"],
+        "assumptions": ["rustc nightly MIR text = the code that is compiled", "mirsym's MIR subset semantics (/verif/mirsym/sym.py)", "z3 5.1 and cvc5 1.0.3 (every query on both)"],
+    },
     "C31": {
         "engines": ["E1 Kani/CBMC", "E2 mirsym+cvc5"],
         "e2": True,
